@@ -269,7 +269,7 @@ def viewLine (toks : List String) : String :=
     match world r with
     | none => "bad-op"
     | some (w, _) =>
-      match view Fixes.all w req with
+      match view Fixes.tree w req with
       | .error f => "PANIC " ++ faultSite f
       | .ok v => renderView v
 
